@@ -114,6 +114,30 @@ def gen_restore_spec(rng, k):
     return spec
 
 
+def gen_ops_spec(rng, k):
+    modes = [("tree", "none"), ("none", "tree"), ("none", "linetree"), ("tree", "tree"), ("basic", "tree"), ("tree", "linetree")]
+    g, c = modes[k % len(modes)]
+    boundary = ["periodic", "shear", "periodic", "open"][(k // 2) % 4]
+    n = list(rng.choice([(1, 1, 1), (2, 1, 1), (1, 2, 1), (3, 1, 1), (2, 2, 1)]))
+    rs = rng.choice(FRIENDLY_RS + ROUGH_RS)
+    # move_to_hel is exercised by dedicated corner histories only: it puts the primary EXACTLY on the origin (a corner of every
+    # cell on its path) while all leaves are stale, which deterministically triggers the open finding
+    # tree:reinsert_on_cell_corner_unbounded_recursion (and, for root sizes with rounded centres, tree:cell_centre_rounding)
+    ops = ["move_to_com", "move_to_com", "rotate", "iadd", "isub", "imul", "multiply", "edit"]
+    spec = {"kind": "ops", "rs": rs, "n": n, "boundary": boundary, "gravity": g, "collision": c, "seed": rng.randrange(1 << 30),
+            "N": rng.choice([3, 7, 15, 30]), "nops": rng.choice([3, 6]), "dt": 0.02, "ops": ops}
+    spec["vel"] = rng.choice([0.0, 0.3, 2.0]) * rs / spec["dt"] * 0.1
+    if k % 7 == 3:
+        spec["units"] = True; spec["ops"] = ops + ["units", "units"]
+    if c != "none":
+        spec["radius"] = rs * 0.02
+    if g != "none":
+        spec["softening"] = 0.05 * rs; spec["mscale"] = 1e-3 * rs ** 3
+    if boundary == "shear":
+        spec["omega"] = rng.choice([1.0, 0.37])
+    return spec
+
+
 def corner_specs():
     out = []
     # (i) particle exactly on the upper box border, more than one root box: FIXED in /repo da62396 for exact root-cell
@@ -145,6 +169,24 @@ def corner_specs():
                 "dt": 0.01, "steps": 2, "step": False, "pts": [(0.3, 0.039, 0.021), (-0.06, 0.03, 0.03), (0.09, -0.09, 0.06)],
                 "what": "a particle exactly at +boxsize/2 with a root size whose (root) cell centre is rounded: routed to the last root box (da62396) but "
                         "fabs(x-c)>w/2 holds by one ulp; the re-insertion descends into the leaf being vacated"})
+    # (iv) hybrid integrators search for collisions inside their encounter steps: with collision='tree' the tree update runs on
+    #      the encounter particle array (C15_tree_update_order_hybrid_refuted); before /repo 794b7d9 particles were lost at step 1 and TRACE looped forever; since then MERCURIUS still drops a particle after ~120 steps
+    out.append({"kind": "corner", "key": "tree:hybrid_integrator_tree_collision", "rs": 20.0, "n": [1, 1, 1], "boundary": "periodic", "collision": "tree",
+                "integrator": "mercurius", "dt": 0.05, "steps": 0, "pts": [],
+                "ops": [["resolve0"], ["add", 1.0, 0.0, 0.0, 0.0], ["orbit", 1e-3, 1.0, 0.0, 0.01], ["orbit", 1e-3, 1.02, 0.02, 0.01],
+                        ["orbit", 1e-3, 2.0, 1.0, 0.01], ["orbit", 1e-3, 3.0, 2.0, 0.01]] + [["step"]] * 130,
+                "what": "MERCURIUS with collision='tree' (periodic box 20, star + 4 planets, two of them in a close encounter): particles are silently lost"})
+    # (v) move_to_hel with a tree: the primary lands exactly on the origin; re-inserted into a leaf whose (stale) resident now lies
+    #     beyond that corner, the two are never separated: unbounded recursion (SIGSEGV)
+    out.append({"kind": "corner", "key": "tree:reinsert_on_cell_corner_unbounded_recursion", "rs": 1.0, "n": [1, 1, 1], "boundary": "periodic", "gravity": "tree",
+                "dt": 0.01, "steps": 0, "pts": [],
+                "ops": [["add", 1.0, 0.3, 0.3, 0.3], ["add", 1e-3, 0.1, 0.1, 0.1], ["add", 1e-3, -0.3, 0.2, -0.1], ["step"], ["move_to_hel"], ["step"]],
+                "what": "sim.move_to_hel() with tree gravity, then step: the primary at exactly (0,0,0) is re-inserted into the leaf of a particle that has not been "
+                        "re-sorted yet and now lies below that corner on every axis"})
+    # move_to_hel where it is fine (must pass): the other particles end up on different sides of the origin
+    out.append({"kind": "corner", "key": "tree:corner_control", "rs": 1.0, "n": [1, 1, 1], "boundary": "periodic", "gravity": "tree", "dt": 0.01, "steps": 0, "pts": [],
+                "ops": [["add", 1.0, 0.1, 0.1, 0.1], ["add", 1e-3, 0.3, -0.2, 0.25], ["add", 1e-3, -0.3, 0.2, -0.1], ["add", 1e-3, 0.45, 0.4, -0.4], ["step"], ["move_to_hel"], ["step"], ["move_to_com"], ["step"]],
+                "what": "move_to_hel / move_to_com with tree gravity, periodic box"})
     # controls: the same situations where the code is fine (must pass)
     out.append({"kind": "corner", "key": "tree:corner_control", "rs": 1.0, "n": [1, 1, 1], "boundary": "periodic", "gravity": "tree", "dt": 0.01, "steps": 2,
                 "pts": [(0.5, 0.1, 0.2), (0.3, 0.3, 0.3), (-0.2, 0.1, 0.1), (0.0, 0.0, 0.0), (0.25, 0.25, 0.25), (-0.5, -0.5, -0.5)],
@@ -370,13 +412,14 @@ def run(ctx):
     rng = ctx.rng
     check_layout(ctx)
     ctx.regen("translate_usestree.py")
+    ctx.regen("translate_treeorder.py")
     proved = ctx.prove("C15", extra_targets=["C15/Run.vo", "C15/Run2.vo", "C15/PathRun.vo"])
 
     ntree = ctx.scale(112, 900)
     nbound = ctx.scale(60, 500)
     nrest = ctx.scale(84, 560)
     specs = [gen_tree_spec(rng, k) for k in range(ntree)] + [gen_boundary_spec(rng, k) for k in range(nbound)] + \
-            [gen_restore_spec(rng, k) for k in range(nrest)] + corner_specs()
+            [gen_restore_spec(rng, k) for k in range(nrest)] + [gen_ops_spec(rng, k) for k in range(ctx.scale(72, 480))] + corner_specs()
     if ctx.thorough:
         for s in specs:
             if s["kind"] == "tree":
